@@ -7,13 +7,18 @@ import RoModel.DriverCore
 import RoModel.Drivers.Op
 import RoModel.Drivers.Chain
 import RoModel.Drivers.Cancel
+import RoModel.Drivers.Create
+import RoModel.Drivers.More
 namespace Ro.Driver
 
 def handlers : List (String × (Case → String)) := [
   ("op", Drivers.Op.run),
   ("chain", Drivers.Chain.runChain),
   ("reuse", Drivers.Chain.runReuse),
-  ("cancel", Drivers.Cancel.run)
+  ("cancel", Drivers.Cancel.run),
+  ("create", Drivers.Create.run),
+  ("tap", Drivers.More.runTap),
+  ("pipe", Drivers.More.runPipe)
 ]
 
 def runCase (c : Case) : String :=
